@@ -738,6 +738,10 @@ func projectName(details *types.ConfigDetails, opts *Options) error {
 	pjNameFromConfigFile = NormalizeProjectName(pjNameFromConfigFile)
 	if pjNameFromConfigFile != "" {
 		opts.projectName = pjNameFromConfigFile
+	} else {
+		// a name that was not set imperatively is a guess (typically the base name of the
+		// project directory): it gets the same normalisation as a name taken from a file
+		opts.projectName = NormalizeProjectName(opts.projectName)
 	}
 	return nil
 }
